@@ -10,20 +10,25 @@ def run(prop, tier):
     v = common.Verdict(prop, "proof")
     v.functions = FUNCS
     known = common.load_known(prop)
-    reps = common.run_units("contracts.lcd:unit_decode", [dict(kind="decode+parse")], budget=300)
-    reps += common.run_units("contracts.lcd:unit_outside", [dict(kind="outside-window")], budget=100)
-    reps += common.run_units("contracts.lcd:unit_chip", [dict(op=o) for o in ("write_data", "read_data", "read_status", "ON_OFF", "START_LINE", "SET_PAGE", "SET_Y_ADDRESS")], budget=300)
-    reps += common.run_units("contracts.lcd:unit_route", [dict(kind="write"), dict(kind="read")], budget=300)
-    reps += common.run_units("contracts.lcd:unit_write_outside", [dict(kind="outside-or-cs-none")], budget=300)
-    combos = [(True, True)] if tier == "quick" else [(True, True), (True, False), (False, True), (False, False)]
-    if tier == "quick":
-        combos = [(True, True), (False, True)]
-    pix = common.run_units("contracts.lcd:unit_pixels", [dict(on=c, kind="pixel-map") for c in combos], budget=900)
-    for r in pix:
-        if r["unit"]["on"] == (False, False) or list(r["unit"]["on"]) == [False, False]:
+    combos = [(True, True), (False, True)] if tier == "quick" else [(True, True), (True, False), (False, True), (False, False)]
+    units = [dict(fn="unit_pixels", on=c, kind="pixel-map") for c in combos]
+    units.append(dict(fn="unit_pixels_enum", on=(True, True), kind="pixel-map-enumeration", random_backgrounds=0 if tier == "quick" else 2, seed=common.seed()))
+    units.append(dict(fn="unit_decode", kind="decode+parse"))
+    units.append(dict(fn="unit_outside", kind="outside-window"))
+    units += [dict(fn="unit_chip", op=o) for o in ("write_data", "read_data", "read_status", "ON_OFF", "START_LINE", "SET_PAGE", "SET_Y_ADDRESS")]
+    units += [dict(fn="unit_route", kind="write"), dict(fn="unit_route", kind="read"), dict(fn="unit_write_outside", kind="outside-or-cs-none")]
+    allr = common.run_units("contracts.lcd:unit_any", units, budget=1200)
+    for r in allr:
+        if r["unit"].get("fn") == "unit_pixels" and not any(r["unit"]["on"]):
             r["allow_empty"] = True
-    reps += pix
+    reps = [r for r in allr if r["unit"].get("fn") != "unit_pixels_enum"]
+    enum = [r for r in allr if r["unit"].get("fn") == "unit_pixels_enum"]
     v.absorb(reps, known)
+    proved = (v.obligations, v.discharged)
+    v.absorb(enum, known)
+    v.obligations, v.discharged = proved
+    v.extra["bounded_obligations"] = dict(generated=sum(r.get("obligations", 0) for r in enum), discharged=sum(r.get("proved", 0) for r in enum),
+                                          note="pixel map re-checked by flipping each of the 8192 VRAM bits under 2(+2) backgrounds on the natively executed function: bounded, not counted")
     v.assumptions = [
         "chip state within its representation invariant (page 0-7, column 0-63, start line 0-63, on/busy booleans), VRAM = arbitrary bytes (z3 array behind a list-of-lists container contract)",
         "addresses inside the two LCD windows 0x2000-0x2FFF / 0xA000-0xAFFF (all 4096 offsets, both windows) for the decode contract; arbitrary 32-bit addresses for the 'outside' contract",
